@@ -665,7 +665,11 @@ def _typ_syntax(ctx, index, rule="C14.typsyntax"):
                 for field in ("body", "orelse", "finalbody"):
                     lst = getattr(par, field, None)
                     if isinstance(lst, list) and cur in lst:
-                        for prev in lst[: lst.index(cur)]:
+                        before = lst[: lst.index(cur)]
+                        if isinstance(par, ast.Try) and field in ("orelse", "finalbody"):
+                            # try: eval(typ) / except ...: / else: store — the `else` arm runs after the whole try body succeeded
+                            before = list(par.body) + before
+                        for prev in before:
                             for c in ast.walk(prev):
                                 if (
                                     isinstance(c, ast.Call)
